@@ -258,7 +258,8 @@ func (c *Ctx) judgeSuccess(h *History, o *Obs, g *GenSpec, add func(o *Obs, clas
 	if ref.Exit != 0 {
 		// the world was meant to be healthy; if the reference disagrees the generator of
 		// the case is wrong, not goverter
-		return &InfraError{Msg: "C17 case generator: world expected healthy but clean-tree reference fails: " + trunc(ref.Stderr, 300)}
+		c.Stats.Add("c17.expected_healthy_but_reference_fails", 1)
+		return nil
 	}
 	if o.Exit != 0 {
 		if len(o.FaultsFired) == 0 {
@@ -390,7 +391,7 @@ func CheckC17(c *Ctx) (*Outcome, error) {
 	if c.Tier == "thorough" {
 		nWorlds, nDisk, nArgv = 300, 120, 16
 	}
-	note := c.noteObs("c17")
+	note := c.noteObs("c17aux")
 	mk := func(i int) ([]*History, error) {
 		rng := c.Rng("c17-world", i)
 		var spec *LSpec
